@@ -11,9 +11,15 @@ def counter : UserL (Nat × Nat) String where
 
 abbrev St := State (CS (Nat × Nat))
 
-def svcOf (name type server : String) (port : Nat) (text : Bytes) (v4 : Bytes) : Svc :=
+def svcOf (name type server : String) (port : Nat) (text : Bytes) (v4 v6 : List Bytes) : Svc :=
   { type := type, name := name, server := server, port := port, weight := 0, priority := 0, text := text,
-    hostTtl := 120, otherTtl := 4500, v4 := [v4], v6 := [] }
+    hostTtl := 120, otherTtl := 4500, v4 := v4, v6 := v6 }
+
+/-- a service as the application passed it: names, port, TXT rdata, every IPv4 and every IPv6 address -/
+def parseSvc : Tok Svc := do
+  let name ← Tok.str; let type ← Tok.str; let server ← Tok.str; let port ← Tok.nat; let text ← Tok.bytes
+  let v4 ← Tok.list Tok.bytes; let v6 ← Tok.list Tok.bytes
+  pure (svcOf name type server port text v4 v6)
 
 def parseOp : Tok (HBlock (Nat × Nat)) := do
   let k ← Tok.next
@@ -23,15 +29,11 @@ def parseOp : Tok (HBlock (Nat × Nat)) := do
     pure (.recv data addr port now draw)
   | "t" => do let addr ← Tok.str; pure (.tcFire addr)
   | "g" => do
-    let name ← Tok.str; let type ← Tok.str; let server ← Tok.str; let port ← Tok.nat; let text ← Tok.bytes; let v4 ← Tok.bytes
+    let s ← parseSvc
     let strict ← Tok.bool
-    pure (.api (.register (svcOf name type server port text v4) strict))
-  | "u" => do
-    let name ← Tok.str; let type ← Tok.str; let server ← Tok.str; let port ← Tok.nat; let text ← Tok.bytes; let v4 ← Tok.bytes
-    pure (.api (.update (svcOf name type server port text v4)))
-  | "x" => do
-    let name ← Tok.str; let type ← Tok.str; let server ← Tok.str; let port ← Tok.nat; let text ← Tok.bytes; let v4 ← Tok.bytes
-    pure (.api (.unregister (svcOf name type server port text v4)))
+    pure (.api (.register s strict))
+  | "u" => do let s ← parseSvc; pure (.api (.update s))
+  | "x" => do let s ← parseSvc; pure (.api (.unregister s))
   | "b" => do
     let now ← Tok.int; let types ← Tok.list Tok.str
     pure (.api (.browserStart ⟨types, 1000, none, 20, 120⟩ now))
